@@ -27,6 +27,11 @@ type op struct {
 	Kind string `json:"kind"`
 	Key  string `json:"key,omitempty"`
 	Val  string `json:"val,omitempty"`
+	// G: the goroutine issuing the operation (kept-copy configurations only: the operations
+	// CopyKeep and C.* work on the copy that goroutine keeps)
+	G int `json:"g,omitempty"`
+	// At: the scope of the tree the operation is started in (tree configurations only)
+	At string `json:"at,omitempty"`
 }
 
 type config struct {
@@ -37,6 +42,13 @@ type config struct {
 	Prelude int `json:"prelude_define_delete_cycles,omitempty"`
 	// Alias: the shared scope has an external lookup that reads the scope itself (lookup configurations only)
 	Alias bool `json:"alias_lookup_reading_the_scope,omitempty"`
+	// Copies: every goroutine may keep a copy of the shared scope and go on working on it
+	// (kept-copy configurations only); the model then has one dictionary per kept copy
+	Copies bool `json:"kept_copies,omitempty"`
+	// Tree: the operations are started in the scopes of a tree of related scopes (tree configurations only)
+	Tree bool `json:"tree_of_related_scopes,omitempty"`
+	// Links: the tree also has the bindings n.up = m and root.alias = n
+	Links bool `json:"up_and_alias_links,omitempty"`
 }
 
 // aliasLookup is an immutable lookup object that READS the scope it is installed on: al_<name> is
@@ -113,12 +125,57 @@ func symbols(m map[string]string) string {
 	return strings.Join(a, ",")
 }
 
+// A kept-copy configuration has one dictionary for the shared scope and one per goroutine that
+// keeps a copy: the state is "<shared>#<copy of g0>#<copy of g1>..." ("-" = no copy kept yet).
+// A copy is a scope of its own: CopyKeep answers the shared scope's dictionary of that moment
+// and makes it the goroutine's copy; C.<operation> is <operation> on that copy and on nothing
+// else; every other operation works on the shared scope and on nothing else.
+func stepAll(state, input, output interface{}) (bool, interface{}) {
+	full := state.(string)
+	in := input.(op)
+	if !strings.Contains(full, "#") {
+		return stepScope(full, in, output.(string))
+	}
+	parts := strings.Split(full, "#")
+	out := output.(string)
+	slot := 1 + in.G
+	switch {
+	case in.Kind == "Final":
+		return out == full, state
+	case in.Kind == "CopyKeep":
+		if out != parts[0] {
+			return false, state
+		}
+		parts[slot] = parts[0]
+		return true, strings.Join(parts, "#")
+	case strings.HasPrefix(in.Kind, "C."):
+		if slot >= len(parts) || parts[slot] == "-" {
+			return false, state
+		}
+		in.Kind = in.Kind[2:]
+		ok, next := stepScope(parts[slot], in, out)
+		parts[slot] = next.(string)
+		return ok, strings.Join(parts, "#")
+	}
+	ok, next := stepScope(parts[0], in, out)
+	parts[0] = next.(string)
+	return ok, strings.Join(parts, "#")
+}
+
 var model = porcupine.Model{
-	Init: func() interface{} { return "" }, // replaced per configuration
-	Step: func(state, input, output interface{}) (bool, interface{}) {
-		st := decode(state.(string))
+	Init:  func() interface{} { return "" }, // replaced per configuration
+	Step:  stepAll,
+	Equal: func(a, b interface{}) bool { return a.(string) == b.(string) },
+	DescribeOperation: func(input, output interface{}) string {
 		in := input.(op)
-		out := output.(string)
+		return fmt.Sprintf("%s(%s,%s)->%s", in.Kind, in.Key, in.Val, output.(string))
+	},
+}
+
+// stepScope: one operation on one scope (a child of the read-only parent) with dictionary state
+func stepScope(state string, in op, out string) (bool, interface{}) {
+	{
+		st := decode(state)
 		switch in.Kind {
 		case "Define":
 			st.vals[in.Key] = in.Val
@@ -159,7 +216,7 @@ var model = porcupine.Model{
 			delete(st.vals, in.Key)
 			return out == "ok", encode(st.vals, st.types)
 		case "Copy", "DeepCopy", "Final":
-			return out == state.(string), state
+			return out == state, state
 		case "Symbols":
 			return out == symbols(st.vals), state
 		case "DefineType":
@@ -180,12 +237,7 @@ var model = porcupine.Model{
 			return true, state
 		}
 		return false, state
-	},
-	Equal: func(a, b interface{}) bool { return a.(string) == b.(string) },
-	DescribeOperation: func(input, output interface{}) string {
-		in := input.(op)
-		return fmt.Sprintf("%s(%s,%s)->%s", in.Kind, in.Key, in.Val, output.(string))
-	},
+	}
 }
 
 // ---- real execution ----
@@ -282,9 +334,233 @@ func execOp(shared *env.Env, o op) string {
 type execution struct {
 	res  verifsync.Result
 	hist []porcupine.Operation
+	// tree configurations: the operations the unfinished goroutines were in at a deadlock, and
+	// the first result that contradicts the (never re-bound) structure of the tree
+	blockedIn []string
+	inFlight  string
+	wrong     string
+}
+
+// ---- tree configurations ----
+//
+// "No combination of concurrent environment operations produces ... a deadlock": the other
+// configurations work on ONE scope below a parent nobody writes, so an operation that holds the
+// lock of one scope while it waits for the lock of a RELATED one never meets its counterpart.
+// Here the operations are started in the scopes of a tree
+//
+//	root { gr, tr(type), m }   m = module { gm, n }   n = module { gn, o }   o = module {}
+//	c = child of n, cc = child of c      (+ n.up = m, root.alias = n when Links is set)
+//
+// and walk it in both directions: DeleteGlobal, Set, Get, Type, DefineGlobal from the inside
+// outwards; GetEnvFromPath from the outside inwards (and out again over n.up); DeepCopy up the
+// chain; String, Copy, listings, Define, Delete, NewModule on the scopes in between. The module
+// bindings m, n, o, up, alias are never written, so every path has one answer whatever the
+// interleaving; that, panics and the scheduler's deadlock verdict (no goroutine enabled) are what
+// is judged. The values are not: an operation that walks the chain takes one scope at a time and
+// the statement orders operations per scope only.
+var treeNames = []string{"root", "m", "n", "o", "c", "cc"}
+
+type tree struct {
+	scopes map[string]*env.Env
+	names  map[*env.Env]string
+}
+
+func buildTree(cfg *config) *tree {
+	t := &tree{scopes: map[string]*env.Env{}, names: map[*env.Env]string{}}
+	root := env.NewEnv()
+	root.Define("gr", "R")
+	root.DefineReflectType("tr", typePool["int64"])
+	m, _ := root.NewModule("m")
+	m.Define("gm", "M")
+	n, _ := m.NewModule("n")
+	n.Define("gn", "N")
+	o, _ := n.NewModule("o")
+	c := n.NewEnv()
+	cc := c.NewEnv()
+	if cfg.Links {
+		n.Define("up", m)
+		root.Define("alias", n)
+	}
+	for i, e := range []*env.Env{root, m, n, o, c, cc} {
+		t.scopes[treeNames[i]] = e
+		t.names[e] = treeNames[i]
+	}
+	// the past of the scopes in between, as in the long-history configurations
+	for i := 0; i < cfg.Prelude; i++ {
+		e := []*env.Env{m, n, c}[i%3]
+		e.Define("past", i)
+		e.Delete("past")
+	}
+	return t
+}
+
+var treeParent = map[string]string{"m": "root", "n": "m", "o": "n", "c": "n", "cc": "c"}
+
+// treeResolve: the one answer of GetEnvFromPath(path) started in scope at ("err": no such module)
+func treeResolve(cfg *config, at string, path []string) string {
+	mods := map[string]map[string]string{"root": {"m": "m"}, "m": {"n": "n"}, "n": {"o": "o"}}
+	if cfg.Links {
+		mods["n"]["up"] = "m"
+		mods["root"]["alias"] = "n"
+	}
+	cur := ""
+	for s := at; ; s = treeParent[s] {
+		if to, ok := mods[s][path[0]]; ok {
+			cur = to
+			break
+		}
+		if s == "root" {
+			return "err"
+		}
+	}
+	for _, p := range path[1:] {
+		to, ok := mods[cur][p]
+		if !ok {
+			return "err"
+		}
+		cur = to
+	}
+	return cur
+}
+
+func execTreeOp(t *tree, o op) string {
+	e := t.scopes[o.At]
+	switch o.Kind {
+	case "Path":
+		got, err := e.GetEnvFromPath(strings.Split(o.Key, "."))
+		if err != nil {
+			return "err"
+		}
+		if name, ok := t.names[got]; ok {
+			return name
+		}
+		return "a-scope-outside-the-tree"
+	case "DefineGlobal":
+		if e.DefineGlobal(o.Key, o.Val) != nil {
+			return "err"
+		}
+		return "ok"
+	case "NewModule":
+		if _, err := e.NewModule(o.Key); err != nil {
+			return "err"
+		}
+		return "ok"
+	}
+	return execOp(e, o)
+}
+
+func runTree(cfg *config, choose func(step int, enabled []int, cur int) int) execution {
+	t := buildTree(cfg)
+	n := len(cfg.Gs)
+	hists := make([][]porcupine.Operation, n)
+	in := make([]string, n)
+	inDesc := make([]string, n)
+	wrong := ""
+	res := verifsync.Run(n, func(id int) {
+		for _, o := range cfg.Gs[id] {
+			verifsync.Yield()
+			in[id] = o.Kind
+			inDesc[id] = fmt.Sprintf("%s[%s](%s)", o.Kind, o.At, o.Key)
+			call := verifsync.Tick()
+			out := execTreeOp(t, o)
+			ret := verifsync.Tick()
+			in[id] = ""
+			if o.Kind == "Path" && wrong == "" {
+				if want := treeResolve(cfg, o.At, strings.Split(o.Key, ".")); out != want {
+					wrong = fmt.Sprintf("GetEnvFromPath(%s) started in %s answers %s; the modules on the path are never re-bound, so every one-at-a-time ordering answers %s", o.Key, o.At, out, want)
+				}
+			}
+			hists[id] = append(hists[id], porcupine.Operation{ClientId: id, Input: o, Call: call, Output: out, Return: ret})
+		}
+	}, choose)
+	ex := execution{res: res, wrong: wrong}
+	for _, h := range hists {
+		ex.hist = append(ex.hist, h...)
+	}
+	if res.Deadlock {
+		for id, k := range in {
+			if k != "" {
+				ex.inFlight += fmt.Sprintf(" g%d is in %s;", id, inDesc[id])
+			}
+		}
+		// the operations of the goroutines on the wait-for cycle (a goroutine that merely queues
+		// behind them is no part of the defect); all blocked ones when the scheduler names no cycle
+		set := map[string]bool{}
+		for _, id := range res.Cycle {
+			if k := in[id]; k != "" && !set[k] {
+				set[k] = true
+				ex.blockedIn = append(ex.blockedIn, k)
+			}
+		}
+		if len(ex.blockedIn) == 0 {
+			for _, k := range in {
+				if k != "" && !set[k] {
+					set[k] = true
+					ex.blockedIn = append(ex.blockedIn, k)
+				}
+			}
+		}
+		sort.Strings(ex.blockedIn)
+	}
+	return ex
+}
+
+func genTreeConfig(c *wk.Case, maxOps int) *config {
+	cfg := &config{Init: map[string]string{}, Tree: true, Links: c.Rng.Intn(3) == 0}
+	if c.Rng.Intn(2) == 0 {
+		cfg.Prelude = c.Rng.Intn(40)
+	}
+	pick := func(a ...string) string { return a[c.Rng.Intn(len(a))] }
+	ng := 2 + c.Rng.Intn(2)
+	for g := 0; g < ng; g++ {
+		nops := 2 + c.Rng.Intn(maxOps-1)
+		if ng == 3 && nops > 3 {
+			nops = 3
+		}
+		var ops []op
+		for i := 0; i < nops; i++ {
+			// outwards, inwards and in between, in equal parts
+			var o op
+			switch c.Rng.Intn(3) {
+			case 0:
+				o = op{Kind: pick("DeleteGlobal", "DeleteGlobal", "DeleteGlobal", "Set", "Get", "Type", "DefineGlobal", "DeepCopy"), At: pick("n", "o", "c", "cc", "m")}
+				switch o.Kind {
+				case "DeleteGlobal", "Get":
+					o.Key = pick("gr", "gm", "gn", "k1", "never-bound")
+				case "Set", "DefineGlobal":
+					o.Key, o.Val = pick("gr", "gm", "gn", "k1"), fmt.Sprintf("g%d.%d", g, i)
+				case "Type":
+					o.Key = pick("tr", "tm", "never-defined")
+				}
+			case 1:
+				o = op{Kind: "Path", At: pick("root", "root", "m", "o", "c", "cc"), Key: pick("m", "m.n", "m.n", "m.n.o", "m.n.o", "n.o", "n")}
+				if cfg.Links && c.Rng.Intn(2) == 0 {
+					o.Key = pick("m.n.up", "m.n.up.n", "m.n.up.n.o", "alias", "alias.o", "alias.up.n")
+				}
+			default:
+				o = op{Kind: pick("Define", "Define", "Delete", "String", "Copy", "Symbols", "DefineType", "NewModule"), At: pick("root", "m", "n", "c")}
+				switch o.Kind {
+				case "Define":
+					o.Key, o.Val = pick("gr", "gm", "gn", "k1"), fmt.Sprintf("g%d.%d", g, i)
+				case "Delete":
+					o.Key = pick("gr", "gm", "gn", "k1")
+				case "DefineType":
+					o.Key, o.Val = "tm", pick("int64", "string", "bool")
+				case "NewModule":
+					o.Key = "x" // a module no path of the configuration goes through
+				}
+			}
+			ops = append(ops, o)
+		}
+		cfg.Gs = append(cfg.Gs, ops)
+	}
+	return cfg
 }
 
 func run(cfg *config, choose func(step int, enabled []int, cur int) int) execution {
+	if cfg.Tree {
+		return runTree(cfg, choose)
+	}
 	parent := env.NewEnv()
 	for k, v := range parentVals {
 		parent.Define(k, v)
@@ -311,11 +587,27 @@ func run(cfg *config, choose func(step int, enabled []int, cur int) int) executi
 	}
 	n := len(cfg.Gs)
 	hists := make([][]porcupine.Operation, n)
+	kept := make([]*env.Env, n) // kept-copy configurations: the copy goroutine id keeps (touched by that goroutine only)
 	res := verifsync.Run(n, func(id int) {
 		for _, o := range cfg.Gs[id] {
 			verifsync.Yield()
 			call := verifsync.Tick()
-			out := execOp(shared, o)
+			var out string
+			switch {
+			case o.Kind == "CopyKeep":
+				if o.Val == "deep" {
+					kept[id] = shared.DeepCopy()
+				} else {
+					kept[id] = shared.Copy()
+				}
+				out = dump(kept[id])
+			case strings.HasPrefix(o.Kind, "C."):
+				oc := o
+				oc.Kind = o.Kind[2:]
+				out = execOp(kept[id], oc)
+			default:
+				out = execOp(shared, o)
+			}
 			ret := verifsync.Tick()
 			hists[id] = append(hists[id], porcupine.Operation{ClientId: id, Input: o, Call: call, Output: out, Return: ret})
 		}
@@ -327,10 +619,20 @@ func run(cfg *config, choose func(step int, enabled []int, cur int) int) executi
 	if !res.Deadlock && len(res.Panics) == 0 {
 		call := verifsync.Tick()
 		out := dump(shared)
+		if cfg.Copies {
+			// the final state of a kept-copy configuration: the shared scope and every kept copy
+			for _, k := range kept {
+				if k == nil {
+					out += "#-"
+				} else {
+					out += "#" + dump(k)
+				}
+			}
+		}
 		ret := verifsync.Tick()
 		hist = append(hist, porcupine.Operation{ClientId: n, Input: op{Kind: "Final"}, Call: call, Output: out, Return: ret})
 	}
-	return execution{res, hist}
+	return execution{res: res, hist: hist}
 }
 
 func describe(h []porcupine.Operation) string {
@@ -339,7 +641,11 @@ func describe(h []porcupine.Operation) string {
 	var b []string
 	for _, o := range ops {
 		in := o.Input.(op)
-		b = append(b, fmt.Sprintf("g%d:%s(%s,%s)@%d-%d->%s", o.ClientId, in.Kind, in.Key, in.Val, o.Call, o.Return, o.Output))
+		at := ""
+		if in.At != "" {
+			at = "[" + in.At + "]"
+		}
+		b = append(b, fmt.Sprintf("g%d:%s%s(%s,%s)@%d-%d->%s", o.ClientId, in.Kind, at, in.Key, in.Val, o.Call, o.Return, o.Output))
 	}
 	return strings.Join(b, " ")
 }
@@ -447,6 +753,72 @@ func genLookupConfig(c *wk.Case, maxOps int) *config {
 			case "DefineType":
 				o.Key = "t1"
 				o.Val = []string{"int64", "string", "bool"}[c.Rng.Intn(3)]
+			}
+			ops = append(ops, o)
+		}
+		cfg.Gs = append(cfg.Gs, ops)
+	}
+	return cfg
+}
+
+// ---- kept-copy configurations ----
+//
+// "A copy is a consistent snapshot of its scope": a scope of its own. The other configurations
+// read a copy once and drop it; here a goroutine KEEPS its copy (CopyKeep) and goes on working
+// on it (C.Define, C.Set, C.Get, C.Delete, C.Symbols, same names as in the shared scope, values of
+// their own) while the others go on working on the shared scope. The shared scope starts in a
+// PRNG state of its life: never used, used and emptied again (0-300 Define/Delete cycles before
+// the start and no initial symbol), holding one symbol that a goroutine deletes (the copy may
+// be taken right after the last symbol went), or holding symbols. The model has a dictionary per
+// kept copy; the final read covers the shared scope and every kept copy.
+func genCopyConfig(c *wk.Case, maxOps int) *config {
+	cfg := &config{Init: map[string]string{}, Copies: true}
+	switch c.Rng.Intn(4) {
+	case 0:
+	case 1:
+		cfg.Init["k1"] = "init1"
+	default:
+		cfg.Prelude = 1 + c.Rng.Intn(300)
+		if c.Rng.Intn(4) == 0 {
+			cfg.Prelude = 1 + c.Rng.Intn(3)
+		}
+		if c.Rng.Intn(4) == 0 {
+			cfg.Init["k1"] = "init1"
+		}
+	}
+	ng := 2 + c.Rng.Intn(2)
+	for g := 0; g < ng; g++ {
+		nops := 2 + c.Rng.Intn(maxOps-1)
+		if ng == 3 && nops > 3 {
+			nops = 3
+		}
+		keeps := false
+		var ops []op
+		for i := 0; i < nops; i++ {
+			k := []string{"CopyKeep", "CopyKeep", "C.Define", "C.Define", "C.Define", "C.Get", "C.Get", "C.Symbols", "C.Set", "C.Delete", "Define", "Define", "Delete", "Delete", "Get", "Set", "Symbols"}[c.Rng.Intn(17)]
+			if g == 0 && i == 0 {
+				k = "CopyKeep"
+			}
+			if strings.HasPrefix(k, "C.") && !keeps {
+				k = "CopyKeep"
+			}
+			o := op{Kind: k, G: g}
+			switch k {
+			case "CopyKeep":
+				keeps = true
+				if c.Rng.Intn(3) == 0 {
+					o.Val = "deep"
+				}
+			case "C.Define", "C.Set":
+				o.Key = []string{"k1", "k2"}[c.Rng.Intn(2)]
+				o.Val = fmt.Sprintf("c%d.%d", g, i)
+			case "Define", "Set":
+				o.Key = []string{"k1", "k2"}[c.Rng.Intn(2)]
+				o.Val = fmt.Sprintf("g%d.%d", g, i)
+			case "Get", "C.Get":
+				o.Key = []string{"k1", "k2", "kp"}[c.Rng.Intn(3)]
+			case "Delete", "C.Delete":
+				o.Key = []string{"k1", "k2"}[c.Rng.Intn(2)]
 			}
 			ops = append(ops, o)
 		}
@@ -847,8 +1219,24 @@ func main() {
 				runLong(c, verdicts)
 				return
 			}
+			// ... and the cases behind the lookup configurations are kept-copy configurations
+			nLookup := 16
+			if c.Tier == "thorough" {
+				nLookup = 456
+			}
+			// ... and the cases behind the kept-copy configurations are tree configurations
+			nKept := 24
+			if c.Tier == "thorough" {
+				nKept = 600
+			}
 			var cfg *config
-			if c.Index >= base {
+			if c.Index >= base+nLookup+nKept {
+				cfg = genTreeConfig(c, maxOps)
+				c.Tag("config-tree-of-related-scopes")
+			} else if c.Index >= base+nLookup {
+				cfg = genCopyConfig(c, maxOps)
+				c.Tag("config-kept-copies")
+			} else if c.Index >= base {
 				cfg = genLookupConfig(c, maxOps)
 				c.Tag("config-alias-lookup")
 			} else {
@@ -856,6 +1244,18 @@ func main() {
 			}
 			kinds := kindsOf(cfg)
 			initState := encode(cfg.Init, map[string]string{})
+			if cfg.Tree {
+				kinds = "related-scopes"
+			}
+			if cfg.Copies {
+				// one signature for the whole family: which operations happen to be in the configuration
+				// says nothing about the defect
+				kinds = "kept-copies"
+				for range cfg.Gs {
+					initState += "#-"
+				}
+				c.Count("kept_copy_configurations_on_an_emptied_scope", map[bool]int{true: 1}[cfg.Prelude > 0 && len(cfg.Init) == 0])
+			}
 			m := model
 			m.Init = func() interface{} { return initState }
 			c.Begin(cfg)
@@ -868,8 +1268,24 @@ func main() {
 					return false
 				}
 				if ex.res.Deadlock {
+					if cfg.Tree {
+						// named by the operations that wait for each other, not by what else is in the configuration
+						c.Violation("deadlock:related-scopes:"+strings.Join(ex.blockedIn, "+"), "no goroutine enabled while some are unfinished: "+strings.Join(ex.res.Blocked, "; ")+";"+ex.inFlight+" completed so far: "+describe(ex.hist), input)
+						return false
+					}
 					c.Violation("deadlock:"+kinds, "no goroutine enabled while some are unfinished: "+strings.Join(ex.res.Blocked, "; "), input)
 					return false
+				}
+				if cfg.Tree {
+					// no dictionary model: see the comment on tree configurations
+					key := describe(ex.hist)
+					c.Eval("tree#"+key, true)
+					c.Events(len(ex.hist))
+					if ex.wrong != "" {
+						c.Violation("related-scopes:GetEnvFromPath:wrong-module", ex.wrong+": "+key, input)
+						return false
+					}
+					return true
 				}
 				key := describe(ex.hist)
 				c.Eval(initState+"#"+key, true)
